@@ -260,6 +260,31 @@ for _fam, (_name, _names) in SCIPY_FAMILIES.items():
     )
 
 
+# ------------------------------------------------------------- bimodal mixture (C15 / C02)
+def bimodal_cdf(x, sep, loc=0.0, scale=1.0):
+    """equal mixture of gamma(4) and gamma(4) shifted by sep (in units of scale)"""
+    z = (_arr(x) - loc) / scale
+    a = np.where(z > 0, sp.gammainc(4.0, np.where(z > 0, z, 1.0)), 0.0)
+    b = np.where(z > sep, sp.gammainc(4.0, np.where(z > sep, z - sep, 1.0)), 0.0)
+    return 0.5 * a + 0.5 * b
+
+
+def bimodal_pdf(x, sep, loc=0.0, scale=1.0):
+    z = (_arr(x) - loc) / scale
+
+    def g(t):
+        tt = np.where(t > 0, t, 1.0)
+        return np.where(t > 0, tt**3 * np.exp(-tt) / 6.0, 0.0)
+
+    return (0.5 * g(z) + 0.5 * g(z - sep)) / scale
+
+
+FAMILIES["ScipyBimodal"] = dict(
+    names=["sep", "loc", "scale"], cdf=bimodal_cdf, pdf=bimodal_pdf, icdf=None,
+    lower=lambda p: p["loc"], loc=lambda p: p["loc"], scipy=True,
+)
+
+
 def ref(family, which, x, params):
     return FAMILIES[family][which](x, **params)
 
